@@ -3,6 +3,7 @@ line. Imports only core Lean + the model (no Mathlib), so it links as a native e
 import Driver.Exec
 import Driver.Hash
 import Driver.Lex
+import Driver.Format
 open Lean
 
 def dispatch (j : Json) : Json :=
@@ -12,6 +13,7 @@ def dispatch (j : Json) : Json :=
   | "hash.validate" => Driver.handleHashValidate j
   | "hash.sum" => Driver.handleHashSum j
   | "lex.scan" => Driver.handleLexScan j
+  | "fmt" => Driver.handleFmt j
   | "h1" => Json.mkObj [("h", Atlas.Base.h1 (Driver.unhex (Driver.str j "hex")))]
   | op => Json.mkObj [("err", s!"unknown-op:{op}")]
 
